@@ -30,7 +30,7 @@ ASSUMPTIONS = [
   "documented configuration ValueErrors (frames syntaxes without fps, HH:MM:SS:FF with non-integer fps) are not failures",
 ]
 REQUIRED = ["roundtrips", "mode:representable", "mode:free", "cfg:none", "cfg:clock_time", "cfg:frames", "cfg:clock_time_with_frames",
-            "snapshots:compared", "class:ruby", "class:element-lang", "class:preserve-space", "class:times-beyond-24h"]
+            "snapshots:compared", "class:ruby", "class:element-lang", "class:preserve-space", "class:times-beyond-24h", "class:single-px"]
 SHARD_TIMEOUT = {"quick": 900, "thorough": 7200}
 N = {"quick": 36, "thorough": 2400}
 
@@ -390,6 +390,40 @@ def check(ctx, adoc0, cfg_name, fps, mode, classes=()):
     ctx.nontriv(("rt", payload["doc"], cfg_name, str(fps)))
 
 
+def single_px(adoc, rng):
+  """Directed class: a document with a non-default pixel resolution in which exactly ONE length uses px, hidden inside a
+  multi-component value (the writer must still declare the root extent, or every px length rescales on re-reading)."""
+  from vt.gen.model_docs import L, dmake, E
+  def strip(v):
+    return "px" not in repr(v)
+  adoc.initials = {k: v for k, v in adoc.initials.items() if strip(v)}
+  els = []
+  for root in list(adoc.regions) + ([adoc.body] if adoc.body else []):
+    for el in root.walk():
+      el.styles = {k: v for k, v in el.styles.items() if strip(v)}
+      el.anims = [a for a in el.anims if strip(a[3])]
+      if el.kind in ("P", "Span") and root is adoc.body:
+        els.append(el)
+  adoc.px = rng.choice([(640, 480), (720, 576), (1280, 720)])
+  if not els:
+    return False
+  el = rng.choice(els)
+  sh = lambda x, y, b, c: dmake("Shadow", x_offset=x, y_offset=y, blur_radius=b, color=c)   # noqa: E731
+  em, px = (lambda v: L(v, "em")), (lambda v: L(v, "px"))
+  kind = rng.choice(["shadow-later", "shadow-blur", "shadow-first", "padding", "outline"])
+  if kind == "shadow-later":
+    el.styles["TextShadow"] = dmake("TextShadowType", shadows=("T", (sh(em(0.1), em(0.1), em(0.05), None), sh(px(2), em(0.1), None, None))))
+  elif kind == "shadow-blur":
+    el.styles["TextShadow"] = dmake("TextShadowType", shadows=("T", (sh(em(0.1), em(0.1), None, None), sh(em(0.2), em(0.1), px(3), None))))
+  elif kind == "shadow-first":
+    el.styles["TextShadow"] = dmake("TextShadowType", shadows=("T", (sh(em(0.1), px(1), em(0.05), None),)))
+  elif kind == "padding" and adoc.regions:
+    adoc.regions[0].styles["Padding"] = dmake("PaddingType", before=L(1, "c"), end=L(0.5, "em"), after=px(4), start=L(1, "%"))
+  else:
+    el.styles["TextOutline"] = dmake("TextOutlineType", thickness=px(2), color=None)
+  return True
+
+
 def no_empty_decoration_steps(adoc):
   """TextDecorationType(None, None, None) has no TTML syntax (tts:textDecoration needs at least one token): as a specified value it is
   equivalent to no attribute, but as the value of an animation step it would have to override the specified value with 'nothing'.
@@ -416,6 +450,8 @@ def run(ctx, params):
           r.end += off
         r.anims = [(p_, None if b is None else b + off, None if e is None else e + off, v) for p_, b, e, v in r.anims]
       ctx.count("class:times-beyond-24h")
+    if i % 9 == 4 and single_px(adoc0, rng):
+      ctx.count("class:single-px")
     cfg_name, needs = CFGS[(params["shard"] + i) % 4]
     fps = rng.choice(FPS) if needs else None
     if cfg_name == "clock_time_with_frames" and fps.denominator != 1:
